@@ -1429,6 +1429,7 @@ func (t *table) gc(now bigtable.Timestamp, done <-chan struct{}, force bool) {
 		// Reverse lock; check if we should exit
 		t.mu.Unlock()
 		defer t.mu.Lock()
+		verifYield("gc.unlocked")
 		select {
 		case <-done:
 			return false // server has been closed
